@@ -84,6 +84,13 @@ def snap(a):
         return a
     b = Arr.__new__(Arr)
     b.__dict__.update(a.__dict__)
+    hp = getattr(a, "heap", None)
+    if hp is not None and not getattr(a, "_in_heap_write", False):
+        # a view of a slot of a mutable list: freeze on the slot's current content
+        heap, m = hp
+        cur = heap.entry
+        b.fn = lambda i, j, cur=cur, m=m: cur(m, i, j)
+        b.heap = None
     return b
 
 
@@ -428,11 +435,21 @@ def slice_bounds(ctx: Ctx, sl: slice, n):
     raise PathAbort("slice with non-unit step over symbolic extent", ctx.cur_line)
 
 
+def _one_array_tuple(k):
+    """key element of the form (arr,) / [arr] with a 1-D integer array (what np.where / np.nonzero return): NumPy reads
+    it as an index array of shape (1, K)."""
+    return isinstance(k, (tuple, list)) and len(k) == 1 and is_arr(k[0]) and k[0].ndim == 1 and k[0].dtype == "int" and k[0].kind == "ndarray"
+
+
 def getitem(ctx: Ctx, a: Arr, key):
     if isinstance(key, tuple):
         keys = list(key)
     else:
         keys = [key]
+    if a.ndim == 2 and len(keys) == 2 and isinstance(keys[0], slice) and keys[0] == slice(None) and _one_array_tuple(keys[1]):
+        # a[:, (idx,)]: shape (rows, 1, K), entry (i, 0, k) = a[i, idx[k]]
+        r = snap(getitem(ctx, a, (slice(None), keys[1][0])))
+        return Arr((r.shape[0], 1, r.shape[1]), lambda i, z, k, f=r.fn: f(i, k), a.dtype)
     keys = [_as_index_arr(ctx, k) for k in keys]
     # 0-d integer arrays act as scalars
     keys = [k.fn() if is_arr(k) and k.ndim == 0 and k.dtype != "bool" else k for k in keys]
@@ -642,6 +659,17 @@ def setitem(ctx: Ctx, a: Arr, key, value):
     """In-place write a[key] = value (replaces a.fn)."""
     if getattr(a, "symlist_elem", False):
         raise PathAbort("in-place write into an element of a symbolic-length list (not modelled)", ctx.cur_line)
+    if getattr(a, "heap", None) is not None and not getattr(a, "_in_heap_write", False):
+        # a view of a slot of a mutable list of matrices: the write becomes the slot's new content
+        heap = a.heap[0]
+        old = heap.begin_inplace(a)
+        a._in_heap_write = True
+        try:
+            setitem(ctx, a, key, value)
+        finally:
+            a._in_heap_write = False
+        heap.end_inplace(a, old)
+        return
     if a.has_views or a.base is not None:
         # a write through / under a live view: the value model has no shared memory
         ctx.dropped.add("write to an array that has views: aliases not updated")
@@ -649,6 +677,11 @@ def setitem(ctx: Ctx, a: Arr, key, value):
         keys = list(key)
     else:
         keys = [key]
+    if a.ndim == 2 and len(keys) == 2 and isinstance(keys[0], slice) and keys[0] == slice(None) and _one_array_tuple(keys[1]) \
+            and is_arr(value) and value.ndim == 3 and isinstance(value.shape[1], int) and value.shape[1] == 1:
+        # a[:, (idx,)] = v with v of shape (rows, 1, K): column idx[k] receives v[:, 0, k]
+        v = snap(value)
+        return setitem(ctx, a, (slice(None), keys[1][0]), Arr((v.shape[0], v.shape[2]), lambda i, k, f=v.fn: f(i, 0, k), v.dtype))
     keys = [snap(_as_index_arr(ctx, k)) for k in keys]
     value = snap(value)
     keys = [k.fn() if is_arr(k) and k.ndim == 0 and k.dtype != "bool" else k for k in keys]
@@ -1362,6 +1395,42 @@ def np_sort(ctx: Ctx, a: Arr):
     ctx.assume(T.ForAll([t], z3.Implies(z3.And(0 <= t, T.lt(t, n)), srt(t) == T.tz(a.fn(p(t)))), [srt(t)]))
     ctx.assume(T.ForAll([t], z3.Implies(z3.And(0 <= t, T.lt(t, n)), T.tz(a.fn(t)) == srt(pinv(t))), [pinv(t)]))
     return Arr(a.shape, lambda i: srt(T.tz(i)), a.dtype)
+
+
+_ARR_IR = z3.ArraySort(I, z3.RealSort())
+NRM = z3.Function("NRM", _ARR_IR, I, I, z3.RealSort())
+
+
+def vector_norm_spec(entry, length, ordv):
+    """NRM applied to the vector (entry(0), ..., entry(length-1)): the norm is a function of the entries, the length
+    and the norm type only.  Vectors are passed as arrays that are 0 outside 0..length-1 (so that equal vectors are
+    equal arrays; z3 decides that by extensionality)."""
+    i = z3.Int("nrm!i")
+    A = z3.Lambda([i], z3.If(z3.And(0 <= i, i < T.tz(length)), T.tz(T.as_real(entry(i))), z3.RealVal(0)))
+    return NRM(A, T.tz(length), T.tz(ordv))
+
+
+def np_vector_norm(ctx: Ctx, v: Arr, ordv=None):
+    """np.linalg.norm of a vector (ord None / 2 / 1 / any int): an uninterpreted function of the entries with the norm
+    facts that hold for every p-norm: non-negative, zero exactly for the zero vector.  (Homogeneity and the triangle
+    inequality are not stated.)"""
+    if v.ndim != 1:
+        raise PathAbort("np.linalg.norm of a non-vector", ctx.cur_line)
+    if ordv is None:
+        ordv = 2
+    if not (isinstance(ordv, int) or (T.is_sym(ordv) and T.sort_of(ordv) == "int")):
+        raise PathAbort("np.linalg.norm with a non-integer ord", ctx.cur_line)
+    v = snap(v)
+    n = v.shape[0]
+    t = vector_norm_spec(v.fn, n, ordv)
+    tag = "numpy:linalg.norm(vector) = uninterpreted function of the entries; >= 0; = 0 iff the vector is zero"
+    ctx.assume(t >= 0, trusted=tag)
+    i = T.fresh_int("ni")
+    w = T.fresh_int("nw")
+    ctx.assume(z3.Implies(t == 0, T.ForAll([i], z3.Implies(z3.And(0 <= i, T.lt(i, n)), T.tz(T.as_real(v.fn(i))) == 0), [v.fn(i)])))
+    ctx.assume(z3.Or(t == 0, z3.And(0 <= w, T.lt(w, n), T.tz(T.as_real(v.fn(w))) != 0)))
+    ctx.log_ghost("norm", dict(value=t, src=v, ord=ordv))
+    return t
 
 
 def isin_fn(ctx: Ctx, b: Arr):
